@@ -68,14 +68,11 @@ def centre_of_gravity(img, threshold=0, min_threshold=0, **kwargs):
     """
 
     if threshold != 0:
-        if len(img.shape) == 2:
-            thres = numpy.max((threshold*img.max(), min_threshold))
-            img = numpy.where(img > thres, img - thres, 0)
-        else:
-            thres = numpy.maximum(threshold*img.max(-1).max(-1), [min_threshold]*img.shape[0])
-            img_temp = (img.T - thres).T
-            zero_coords = numpy.where(img_temp < 0)
-            img[zero_coords] = 0
+        # one rule for a single image and for a stack of any rank: subtract each
+        # image's own threshold and clip at zero (never write into the caller's array)
+        thres = numpy.maximum(threshold*img.max(-1).max(-1), min_threshold)
+        thres = numpy.asarray(thres)[..., None, None]
+        img = numpy.where(img > thres, img - thres, 0)
 
     if len(img.shape) == 2:
         y_cent, x_cent = numpy.indices(img.shape)
